@@ -747,6 +747,136 @@ Fixpoint run (st : store) (ops : list op) : res store :=
   | o :: t => do st' <- step st o; run st' t
   end.
 
+(* ---------- aliasing: several stream objects on one flow data ----------
+   [cells] holds the flow data; a handle is a Python stream object:
+     HCell j       the stream that owns cell j
+     HProxy j ph   stream.flow_proxy() / link_with(flow only): another single-phase Stream object whose
+                   indexer shares the SparseVector of cell j and has its own phase
+     HView j p     multistream[p]: the cached per-phase sub-stream, a Stream whose indexer wraps the row
+                   object of phase p (MaterialIndexer.get_phase; _expand_phases keeps the row objects)
+   Every modelled operation mutates the data in place except where the stream's indexer is replaced
+   (phases setters: fallback of mix_from, copy_like from a stream with several phases into a Stream,
+   split_to setting the outlets' phases); those are allowed only on a handle that is the only one on
+   its cell ([exclusive]) - otherwise [astep] answers Err EOther (outside the modelled fragment, never
+   generated).  An operation is the value-level [step] on the handles' views, written back to the cells. *)
+Inductive handle := HCell (j : nat) | HProxy (j : nat) (ph : phase) | HView (j : nat) (p : phase).
+Record astore := mka { cells : store; hs : list handle }.
+Definition hcell (h : handle) : nat := match h with HCell j => j | HProxy j _ => j | HView j _ => j end.
+Definition view_of (cs : store) (h : handle) : res stream :=
+  match h with
+  | HCell j => gets cs j
+  | HProxy j ph => do s <- gets cs j;
+                   match s with SS c => Ok (SS (set_cphase c ph)) | MS _ => Err EOther end
+  | HView j p => do s <- gets cs j;
+                 match s with
+                 | MS m => do i <- phase_index p (mphases m); Ok (SS (mkc (mpkg m) p (nth i (mrows m) [])))
+                 | SS _ => Err EOther
+                 end
+  end.
+Fixpoint views (cs : store) (l : list handle) : res store :=
+  match l with
+  | [] => Ok []
+  | h :: t => do s <- view_of cs h; do r <- views cs t; Ok (s :: r)
+  end.
+Definition count_on (l : list handle) (j : nat) : nat := length (filter (fun h => Nat.eqb (hcell h) j) l).
+Definition exclusive (l : list handle) (k : nat) : bool :=
+  match nth_error l k with
+  | Some (HCell j) => Nat.eqb (count_on l j) 1
+  | _ => false
+  end.
+Definition is_view (l : list handle) (k : nat) : bool :=
+  match nth_error l k with Some (HView _ _) => true | _ => false end.
+Definition kind_at (vst : store) (k : nat) : bool :=       (* true = multi-phase *)
+  match nth_error vst k with Some (MS _) => true | _ => false end.
+(* does the operation replace the indexer of a target (so that other handles would be left behind)? *)
+Definition safe_op (l : list handle) (vst : store) (o : op) : bool :=
+  match o with
+  | OMix r ins eb hf =>
+    negb (is_view l r) &&
+    (exclusive l r ||
+     (Nat.eqb hf 0 && (negb eb || kind_at vst r || forallb (fun i => negb (kind_at vst i)) ins)))
+  | OSplit f s1 s2 sp eb =>
+    let inplace := fun k => negb (kind_at vst k) &&
+                            (negb (kind_at vst f) || (negb eb && negb (kind_at vst s1) && negb (kind_at vst s2))) in
+    negb (is_view l s1) && negb (is_view l s2) &&
+    (exclusive l s1 || inplace s1) && (exclusive l s2 || inplace s2)
+  | OSep r _ => negb (is_view l r)
+  | OCopyFlow d _ _ _ _ => negb (is_view l d)
+  | OCopyFlowM d _ _ _ _ _ => negb (is_view l d)
+  | OScale i _ => negb (is_view l i)
+  | OMul _ _ => true
+  end.
+Definition targets (o : op) : list nat :=
+  match o with
+  | OMix r _ _ _ => [r]
+  | OSplit _ s1 s2 _ _ => [s1; s2]
+  | OSep r _ => [r]
+  | OCopyFlow d s _ _ _ => [d; s]
+  | OCopyFlowM d s _ _ _ _ => [d; s]
+  | OScale i _ => [i]
+  | OMul _ _ => []
+  end.
+Definition write_back (a : astore) (k : nat) (s' : stream) : res astore :=
+  match nth_error (hs a) k with
+  | Some (HCell j) => Ok (mka (upd (cells a) j s') (hs a))
+  | Some (HProxy j ph) =>
+    do old <- gets (cells a) j;
+    match old, s' with
+    | SS c, SS c' => Ok (mka (upd (cells a) j (SS (mkc (cpkg c) (cphase c) (crow c'))))
+                             (upd (hs a) k (HProxy j (cphase c'))))
+    | _, _ => Err EOther
+    end
+  | Some (HView j p) =>
+    do old <- gets (cells a) j;
+    match old, s' with
+    | MS m, SS c' => do i <- phase_index p (mphases m);
+                     Ok (mka (upd (cells a) j (MS (mkm (mpkg m) (mphases m) (upd (mrows m) i (crow c'))))) (hs a))
+    | _, _ => Err EOther
+    end
+  | None => Err EIndex
+  end.
+Fixpoint write_all (a : astore) (vst' : store) (ks : list nat) : res astore :=
+  match ks with
+  | [] => Ok a
+  | k :: t => do s' <- gets vst' k; do a' <- write_back a k s'; write_all a' vst' t
+  end.
+(* MaterialIndexer.copy_like(single-phase source) starts with self.empty(): when the only non-empty inlet
+   of an energy-balanced mix is a sub-stream of the receiver itself, the source row is wiped before it is
+   read and the receiver ends up empty *)
+Definition own_view_only (l : list handle) (vst : store) (r : nat) (ins : list nat) : bool :=
+  kind_at vst r &&
+  match filter (fun i => match nth_error vst i with Some s => negb (isempty s) | None => false end) ins with
+  | [i] => negb (Nat.eqb i r) &&
+           match nth_error l i, nth_error l r with
+           | Some hi, Some hr => Nat.eqb (hcell hi) (hcell hr)
+           | _, _ => false
+           end
+  | _ => false
+  end.
+Definition astep_values (l : list handle) (vst : store) (o : op) : res store :=
+  match o with
+  | OMix r ins true hf =>
+    if own_view_only l vst r ins
+    then do rs <- gets vst r; do _ <- gets_all vst ins; Ok (upd vst r (empty_stream rs))
+    else step vst o
+  | _ => step vst o
+  end.
+Definition astep (a : astore) (o : op) : res astore :=
+  do vst <- views (cells a) (hs a);
+  if negb (safe_op (hs a) vst o) then Err EOther else
+  do vst' <- astep_values (hs a) vst o;
+  do a' <- write_all a vst' (targets o);
+  match o with
+  | OMul _ _ => do s <- gets vst' (length vst);               (* the product is a new, unshared stream *)
+                Ok (mka (cells a' ++ [s]) (hs a' ++ [HCell (length (cells a'))]))
+  | _ => Ok a'
+  end.
+Fixpoint arun_upto (a : astore) (ops : list op) (n : nat) : res astore * list op :=
+  match n, ops with
+  | S k, o :: t => match astep a o with Ok a' => arun_upto a' t k | Err e => (Err e, ops) end
+  | _, _ => (Ok a, ops)
+  end.
+
 (* ---------- comparison with the implementation's observations ---------- *)
 Definition pkg_eqb (a b : pkg) : bool := Nat.eqb (pid a) (pid b) && list_eqb Nat.eqb (cas a) (cas b).
 Definition stream_eqb (a b : stream) : bool :=
@@ -771,6 +901,22 @@ Definition run_eqb (st : store) (ops : list op) (n_ok : nat) (e : option err) (e
     | None, [] => store_eqb st' expect
     | Some e, o :: _ => res_eqb (fun _ _ => false) (step st' o) (Err e) && store_eqb st' expect
     | _, _ => false
+    end
+  | (Err _, _) => false
+  end.
+
+(* the same for histories with aliases: what every handle shows is compared *)
+Definition arun_eqb (a : astore) (ops : list op) (n_ok : nat) (e : option err) (expect : store) : bool :=
+  match arun_upto a ops n_ok with
+  | (Ok a', rest) =>
+    match views (cells a') (hs a') with
+    | Ok vs =>
+      match e, rest with
+      | None, [] => store_eqb vs expect
+      | Some e, o :: _ => res_eqb (fun _ _ => false) (astep a' o) (Err e) && store_eqb vs expect
+      | _, _ => false
+      end
+    | Err _ => false
     end
   | (Err _, _) => false
   end.
